@@ -47,6 +47,7 @@ type Report struct {
 	KnownLines  []string
 	Bounded     []map[string]interface{}
 	Replays     []string
+	Slow        []string
 }
 
 func runProperty(prop, tier string) *Report {
@@ -71,7 +72,7 @@ func runPropertyRaw(prop, tier string, forBaseline bool) *Report {
 	for _, t := range ts {
 		results = append(results, verifyFunction(t.w, t.ss, t.fn, t.spec))
 	}
-	timeout := 10
+	timeout := 20
 	agree := false
 	if tier == "thorough" {
 		timeout = 60
@@ -128,6 +129,9 @@ func runPropertyRaw(prop, tier string, forBaseline bool) *Report {
 			rep.SolverS += o.Time
 			if o.Time > rep.SolverMax {
 				rep.SolverMax = o.Time
+			}
+			if o.Time > 4 && !o.Vacuity && !o.Soft && o.Status == "discharged" {
+				rep.Slow = append(rep.Slow, fmt.Sprintf("%s %.1fs %s", o.Name, o.Time, o.Backend))
 			}
 			if o.Vacuity {
 				rep.VacRun++
@@ -291,6 +295,7 @@ func writeEvidence(rep *Report) {
 		"soft_overflow":            map[string]int{"sites": rep.SoftTotal, "open": rep.SoftOpen},
 		"bounded":                  rep.Bounded,
 		"unmodelled_constructs":    rep.Notes,
+		"slow_obligations":         rep.Slow,
 		"explanation":              "obligations = hard obligations claimed (discharged, or violated); soft overflow obligations, vacuity covers, obligations listed as known findings and undecided obligations outside the baseline are reported separately and are never counted as discharged",
 	}
 	ass := append([]string{}, rep.Assumptions...)
